@@ -89,6 +89,29 @@ def symlen(x):
     return len(x)
 
 
+
+_OPTIONAL_ATTRS = {"sum_of", "stacked", "log", "weighted_parts", "tok"}
+
+
+def _missing_attribute(owner, name):
+    """A name the assumed library contract does not model.  Dunder/private names and the models' own optional
+    attributes keep Python's protocol (AttributeError); anything else is a limit of the MODEL, not a property of the
+    code under proof: the path is abandoned as undecided (EngineUnsupported), never reported as a failed obligation."""
+    if name.startswith("_") or name in _OPTIONAL_ATTRS:
+        raise AttributeError(f"{owner} has no attribute {name!r}")
+    raise symx.EngineUnsupported(f"the library model {owner} does not cover `{name}`")
+
+
+class _ModelNamespace(type):
+    def __getattr__(cls, name):
+        _missing_attribute(cls.__name__, name)
+
+
+class _ModelObject:
+    def __getattr__(self, name):
+        _missing_attribute(type(self).__name__, name)
+
+
 class Coords:
     """dict-like view of the coordinates of an MArr"""
 
@@ -175,7 +198,7 @@ class EagerEvaluation(Exception):
     pass
 
 
-class MArr:
+class MArr(_ModelObject):
     def __init__(self, dims, sizes, elem, name=None, coords=None, attrs=None, tok=None,
                  dask=None, dtype="float64"):
         self.dims = tuple(dims)
@@ -784,7 +807,7 @@ class DataArrayModel(metaclass=_DAMeta):
         raise EngineUnsupported("xr.DataArray(...) constructor form not modelled")
 
 
-class XRModel:
+class XRModel(metaclass=_ModelNamespace):
     DataArray = DataArrayModel
 
     @staticmethod
@@ -875,7 +898,7 @@ class XRModel:
                                  dask, kwargs or {}, dask_gufunc_kwargs or {}, output_dtypes)
 
 
-class NArr:
+class NArr(_ModelObject):
     """plain n-d array handed to the user function: positional axes, symbolic shape"""
 
     def __init__(self, shape, elem, labels=None, dask=None):
@@ -1035,7 +1058,7 @@ class NArr:
         return iter([symx.SymVal(self._elem((z3.IntVal(i),))) for i in range(self.shape[0])])
 
 
-class BArr:
+class BArr(_ModelObject):
     """boolean numpy array (result of an elementwise comparison)"""
 
     def __init__(self, shape, elem):
@@ -1051,7 +1074,7 @@ class BArr:
         return all(iter(self))
 
 
-class NPModel:
+class NPModel(metaclass=_ModelNamespace):
     """model of the numpy functions used inside xgcm.gridops (bound to gridops.np)"""
     nan = float("nan")
     ndarray = NArr
@@ -1281,7 +1304,7 @@ def apply_ufunc_model(func, args, in_core, out_core, exclude, dask, kwargs, gufu
     return outs[0] if single else tuple(outs)
 
 
-class MDataset:
+class MDataset(_ModelObject):
     """model of xarray.Dataset as used by xgcm: named dimensions with sizes, coordinate and
     data variables (MArr), attrs."""
 
